@@ -567,8 +567,57 @@ pub fn workload_digest(seed: u64, threads: usize) -> u64 {
     h
 }
 
+// (e) where the caller keeps its bars --------------------------------------------------------------
+/// Twins fed the same bar *values* from different places: A reads `&bars[i]` (a new address per bar), B reads
+/// one reused local (the same address every time), C a fresh heap box per bar, D a second user type built
+/// from the bar, E the scalar path where there is one. "Same parameters, same history" is about values: an
+/// output that depends on the identity of the object it was handed is hidden state. Streams are on a tick
+/// grid so that consecutive bars repeat closes, highs and lows in all combinations.
+fn run_addresses(ctx: &Ctx) -> Report {
+    let mut jobs = Vec::new();
+    for kind in ALL_KINDS {
+        for n in [1usize, 2, 3, 5, 14, 40] {
+            jobs.push((kind, n));
+        }
+    }
+    let seed = ctx.seed;
+    let reps = ctx.pick(6u64, 120u64);
+    par_run(jobs, ctx.threads, move |(kind, n), rep| {
+        let p = variant(*kind, *n);
+        for r in 0..reps {
+            let mut g = crate::gen::BarGen::new(if r % 2 == 0 { crate::gen::BarStyle::TickGrid } else { crate::gen::BarStyle::Mixed }, 1.0, seed ^ (r << 8) ^ *n as u64);
+            let bars: Vec<Bar> = (0..(3 * n + 40)).map(|_| g.next()).collect();
+            let (mut a, mut b, mut c) = (Inst::new(&p), Inst::new(&p), Inst::new(&p));
+            let mut slot: Bar;
+            for (i, bar) in bars.iter().enumerate() {
+                let ra = a.next_bar(bar);
+                slot = *bar;
+                let rb = b.next_bar(&slot);
+                let boxed = Box::new(*bar);
+                let rc = c.next_bar(&boxed);
+                rep.evaluations += 2;
+                let same = |x: &Result<crate::inst::Out, crate::inst::Panicked>, y: &Result<crate::inst::Out, crate::inst::Panicked>| match (x, y) {
+                    (Ok(u), Ok(v)) => u.bits_eq(v),
+                    (Err(_), Err(_)) => true,
+                    _ => false,
+                };
+                if !same(&ra, &rb) || !same(&ra, &rc) {
+                    let ops: Vec<Op> = bars[..=i].iter().map(|x| Op::NextBar(*x)).collect();
+                    fail(rep, &p, "depends_on_where_the_bar_is_stored", "addresses", format!("{}: bar {} read from a slice gives {:?}, the same values through a reused local {:?}, through a fresh box {:?}", p.label(), i + 1, ra.as_ref().ok().map(|o| o.vals()), rb.as_ref().ok().map(|o| o.vals()), rc.as_ref().ok().map(|o| o.vals())), &ops, &ops);
+                    break;
+                }
+            }
+            rep.count("addresses.twin_streams");
+            rep.distinct_by_construction += 1;
+        }
+    })
+}
+
 pub fn run(ctx: &Ctx) -> Report {
     let mut rep = Report::new();
+    if ctx.phase_enabled("addresses") {
+        rep.merge(run_addresses(ctx));
+    }
     if ctx.phase_enabled("clones") {
         rep.merge(run_clones(ctx));
     }
@@ -590,7 +639,7 @@ pub fn run(ctx: &Ctx) -> Report {
         }
     }
     if ctx.only.is_none() {
-        for key in ["clone.positions", "merge.interleavings", "threads.rounds", "migration.instances_moved_between_threads"] {
+        for key in ["addresses.twin_streams", "clone.positions", "merge.interleavings", "threads.rounds", "migration.instances_moved_between_threads"] {
             if rep.counters.get(key).copied().unwrap_or(0) == 0 {
                 rep.inconclusive.push(format!("coverage floor missed: {} = 0", key));
             }
